@@ -58,13 +58,11 @@ func tok(s string) []byte {
 }
 
 func showVal(ok bool, v []byte) string {
-	if !ok && v == nil {
+	// the flag is the observation: "-" = the ledger says the key does not exist, whatever bytes come with it
+	if !ok {
 		return "-"
 	}
 	if len(v) == 0 {
-		if v == nil {
-			return "-"
-		}
 		return "~"
 	}
 	return string(v)
